@@ -3,6 +3,7 @@
    and against an independent native bit-serial CRC-32C. *)
 open Common
 open Mtbl_model
+type string = Stdlib.String.t
 
 external c_crc : int -> string -> int -> int64 = "vp_crc_impl"
 external c_sse42_supported : unit -> bool = "vp_sse42_supported"
